@@ -260,6 +260,59 @@ def fp_kernel_fn(n_lo, n_hi):
     return fn
 
 
+def rederived_tolerance():
+    """the guard the current source subtracts before ceil() in bi_rectangular's row count (0 if there is none)"""
+    import inspect
+    import re
+
+    import ghedesigner.domains as D
+    src = inspect.getsource(D.bi_rectangular)
+    m = re.search(r'n_2\s*=\s*ceil\(\(length_2\s*/\s*b_max_2\)\s*\+\s*1\s*(?:-\s*([0-9.eE+-]+))?\)', src)
+    if m is None:
+        raise Unsupported('bi_rectangular: row-count expression not recognised - the float lemma has to be rewritten')
+    return float(m.group(1)) if m.group(1) else 0.0
+
+
+def fp_rederived_fn(n_lo, n_hi):
+    """bi_rectangle_nested hands bi_rectangular the spacing b = fl(L/(n-1)); bi_rectangular recovers the row count as
+    ceil(fl(fl(fl(L/b) + 1) - tol)). In the relative-error model the recovered count is n for every n and L (otherwise an extra row
+    appears and the rows are closer than b_min)."""
+    def fn(e):
+        tol = rederived_tolerance()
+        n = e.int('n', n_lo, n_hi)
+        U = 2.0 ** -53
+        e1, e2, e3, e4 = (e.real('e%d' % k, -U, U) for k in (1, 2, 3, 4))
+        nn = n.__index__()
+        ratio = (nn - 1) / (1 + e1) * (1 + e2)          # fl(L / fl(L/(n-1)))
+        x = (ratio + 1) * (1 + e3)
+        if tol:
+            x = (x - tol) * (1 + e4)
+        return (x > nn - 1) & (x <= nn)                 # ceil(x) == n
+    return fn
+
+
+def fp_rederived_replay(model, notes):
+    """native: look for a side length for which the real generator recovers a different count (binary64), near the model's n"""
+    restore_shadows()
+    import math
+
+    import ghedesigner.domains as D
+    n0 = int(model['n'])
+    for n in [n0] + list(range(3, 60)):
+        for L in [x * 0.5 for x in range(20, 401)]:
+            b = L / (n - 1)
+            dom, _ = D.bi_rectangular(L, L, b * 0.98, 4 * b, b)
+            worst = None
+            for f in dom:
+                ys = sorted({float(y) for _, y in f})
+                gaps = [q - p for p, q in zip(ys, ys[1:])]
+                if gaps and (worst is None or min(gaps) < worst):
+                    worst = min(gaps)
+            if worst is not None and worst < b * 0.98 * (1 - 1e-9):
+                return True, dict(side=L, rows_intended=n, spacing_handed_over=b, b_min=b * 0.98, closest_rows=worst)
+    return False, 'no binary64 instance found on the half-metre grid of side lengths'
+
+
 LOTS_Q = [(70.0, 40.0), (40.0, 70.0), (20.0, 60.0), (33.3, 47.1)]
 LOTS_T = LOTS_Q + [(85.0, 40.0), (40.0, 85.0), (60.0, 60.0), (36.5, 85.0), (85.0, 36.5), (100.0, 20.0), (20.0, 100.0), (100.0, 100.0), (60.0, 61.0), (47.1, 33.3), (120.0, 45.5), (25.0, 80.0), (50.0, 30.0)]
 
@@ -294,6 +347,9 @@ def units(tier, seed):
                        'near-square design, side %g m concrete, spacing b all reals in [%g, min(25, side)]' % (L, nrng[0]), AS, max_seconds=1500))
     us.append(Unit('fp_kernel', fp_kernel_fn(3, 120 if tier == 'quick' else 400), None, None, [],
                    'count n: every Int in 3..%d; ratio L/b all reals in [1,1000]; three rounding errors |eps| <= 2^-53' % (120 if tier == 'quick' else 400),
+                   ['standard relative-error model of binary64 (normal range)'], max_seconds=900))
+    us.append(Unit('fp_kernel_rederived_rows', fp_rederived_fn(3, 120 if tier == 'quick' else 400), fp_rederived_replay, None, ['domains.py:bi_rectangular (row-count line, read from the source)'],
+                   'row count n: every Int in 3..%d; four rounding errors |eps| <= 2^-53; any side length' % (120 if tier == 'quick' else 400),
                    ['standard relative-error model of binary64 (normal range)'], max_seconds=900))
     us.append(Unit('twin_reachability', make_fn('rect', 40.0, 30.0, twin=True), None, setup, F, 'assert False must be violated', expect_cex=True))
     return us
